@@ -20,6 +20,8 @@ CLAIMED = {
          "IQR operations (NumberOfRecords/Discard/DiscardAfter/Append) are ASSUMED contracts over an abstract interval view; NaN excluded; compareValues' rank/typing logic (strings, interface values) not covered"),
  "C06": ("4 C06", "Chunk invariance of head, tail and scroll: each processor's cross-batch state is proved to be a function of the number of records seen only (tail: finalIqr is always the last min(seen,TailRows) records; head: union of outputs is the first MaxRows; scroll: skipped prefix), over the interval view of an IQR. The other commands of the property (where/eval/dedup/stats/...) are not decided.",
          "IQR operations are ASSUMED contracts over an abstract interval view; stream positions below 2^60; batches arrive in stream order (adjacency precondition)"),
+ "C08": ("4 C08", "Gorilla codec of the metrics store: the real value encoder and decoder are proved inverse for every float64 bit pattern and every window state (token-stream contracts, clz/ctz loops with inductive invariants, a round-trip lemma that re-establishes the encoder/decoder coupling invariant = the induction step over the samples of a series), likewise the delta-of-delta timestamp encoder/decoder for all int32 deltas; reading a field with another width than it was written with is a named obligation. The bit I/O layer is an assumed token-stream view; series identity (TSID hashing, tags), files and rotation are not decided.",
+         "bitWriter/bitReader ASSUMED to implement the ghost token stream (a field written with writeBits(v,n) is read back by readBits(n) / n readBit calls); modifies-frames of the verified codec functions are not themselves checked; NaN payloads unconstrained; first-sample path (14-bit delta) and finish marker not covered; dod == 2^32-1 excluded (collides with the end marker)"),
  "C13": ("4 C13", "Segment-selection guard: every rotated or open segment handed to a search, and every column name collected for it, is proved (path-condition contracts at the insertion sites, loop invariant for the index-name match) to belong to the requesting organisation, to a requested index and to overlap the query time range. Index-name expansion (wildcards, aliases), metrics queries and deletion are not decided.",
          "map iteration is abstracted (arbitrary order/elements); ExpandAndReturnIndexNames, alias maps and deletion not covered"),
  "C14": ("4 C14", "Victim-selection guard of the time-based retention pass: a log or metrics segment is put on the deletion list only if its newest event is at or before the horizon (no arithmetic overflow in the second->millisecond conversion) and only entries of the requesting organisation are considered. The converse direction (every expired segment is deleted), interruption/repetition, files and blob store are not decided.",
